@@ -1,10 +1,165 @@
 package main
 
-import "verif.local/harness/lib"
+import (
+	"encoding/json"
+	"fmt"
+	"sync"
+	"time"
+	"unicode"
 
+	"src.elv.sh/pkg/eval"
+	"verif.local/harness/elv"
+	"verif.local/harness/lib"
+)
+
+// litCase is a case printed by MCLiteral: a text, a context and what the reference prescribes.
 type litCase struct {
-	T []int `json:"t"`
+	T   []int  `json:"t"`
+	Ctx string `json:"ctx"`
+	Ok  bool   `json:"ok"`  // the text is one literal word denoting V
+	V   []int  `json:"v"`   //
+	U   bool   `json:"u"`   // the reference leaves it open
+	Evu bool   `json:"evu"` // resolution of the denoted name is outside the property
 }
 
-func literals(c *lib.Ctx) error                     { return nil }
-func replayLiteral(c *lib.Ctx, lc litCase) error { return nil }
+type family struct {
+	id, quick, thorough int // MaxTok per tier
+}
+
+var families = []family{{1, 3, 4}, {2, 3, 5}, {3, 2, 3}, {4, 3, 5}}
+
+// replayLit gives the text to the real parser and Evaler and compares with the prescription.
+// It returns "" when they agree.
+func replayLit(ev *eval.Evaler, lc litCase) string {
+	if lc.U {
+		return ""
+	}
+	t := bytesOf(lc.T)
+	code, from, to := program(lc.Ctx, t)
+	perr, single, val := project(lc.Ctx, code, from, to)
+	if !lc.Ok {
+		if !perr && single {
+			return fmt.Sprintf("the reference says %q is not one literal word in context %s; the real parser accepts it as one with value %q", t, lc.Ctx, val)
+		}
+		return ""
+	}
+	want := bytesOf(lc.V)
+	if perr || !single || val != want {
+		return fmt.Sprintf("the reference says %q denotes %q in context %s; real parser: error=%v single=%v value=%q", t, want, lc.Ctx, perr, single, val)
+	}
+	if lc.Evu {
+		return ""
+	}
+	o := observe(ev, want, t, lc.Ctx)
+	if o.Evc != "" || len(o.Ev) != 1 || bytesOf(o.Ev[0]) != want {
+		return fmt.Sprintf("the reference says %q denotes %q in context %s; real Evaler: %s %q", t, want, lc.Ctx, o.Evc, evStrings(o.Ev))
+	}
+	return ""
+}
+
+func litKey(lc litCase) string {
+	return fmt.Sprintf("literal:%s:%q", lc.Ctx, bytesOf(lc.T))
+}
+
+// literals runs MCLiteral for every family and replays every printed case on the real code.
+func literals(c *lib.Ctx) error {
+	// the model's printability table must be the real one for the code points of its tokens
+	if !unicode.IsPrint(0xe9) || unicode.IsPrint(0x85) {
+		return lib.Infra("MCLiteral's printability table disagrees with unicode.IsPrint")
+	}
+	type result struct {
+		cases []litCase
+		err   error
+	}
+	res := make([]result, len(families))
+	lib.Parallel(len(families), 4, func(i int) {
+		f := families[i]
+		n := c.Pick(f.quick, f.thorough)
+		cfg := fmt.Sprintf("CONSTANT Family = %d\nCONSTANT MaxTok = %d\nINIT Init\nNEXT Next\nINVARIANT Sane\nINVARIANT Emit\n", f.id, n)
+		r, err := c.TLC(fmt.Sprintf("MCLiteral/family%d", f.id), lib.TLCRun{Dir: c.SpecDir("StringLit"), Module: "MCLiteral",
+			Workers: 2, Timeout: 12 * time.Minute, Files: map[string][]byte{"MCLiteral.cfg": []byte(cfg)}})
+		if err != nil {
+			res[i].err = err
+			return
+		}
+		if r.ErrKind != "" {
+			res[i].err = lib.Infra("MCLiteral family %d: the reference is inconsistent in the model itself: %s\n%s", f.id, r.Err, r.ErrTrace)
+			return
+		}
+		seen := map[string]bool{}
+		states := map[string]bool{}
+		for _, s := range r.PrintedStrings() {
+			var lc litCase
+			if err := json.Unmarshal([]byte(s), &lc); err != nil {
+				res[i].err = lib.Infra("bad case from TLC: %v: %s", err, s)
+				return
+			}
+			k := lc.Ctx + "|" + bytesOf(lc.T)
+			if !seen[k] {
+				seen[k] = true
+				res[i].cases = append(res[i].cases, lc)
+			}
+			states[bytesOf(lc.T)] = true
+		}
+		// every state prints its own text: at least r.Distinct different texts must have arrived
+		if int64(len(states)) < r.Distinct {
+			res[i].err = lib.Infra("MCLiteral family %d: TLC found %d texts, %d arrived", f.id, r.Distinct, len(states))
+		}
+	})
+	var all []litCase
+	bounds := map[string]any{}
+	for i, r := range res {
+		if r.err != nil {
+			return r.err
+		}
+		bounds[fmt.Sprintf("family%d", families[i].id)] = map[string]any{"max_tokens": c.Pick(families[i].quick, families[i].thorough), "cases": len(r.cases)}
+		all = append(all, r.cases...)
+	}
+	c.Set("literal_bounds", bounds)
+	c.Logf("G: %d literal cases", len(all))
+	msgs := make([]string, len(all))
+	const workers = 8
+	var wg sync.WaitGroup
+	for w := 0; w < workers; w++ {
+		wg.Add(1)
+		go func(w int) {
+			defer wg.Done()
+			ev := elv.New()
+			for i := w; i < len(all); i += workers {
+				msgs[i] = replayLit(ev, all[i])
+			}
+		}(w)
+	}
+	wg.Wait()
+	var nU, nOk, nBad int64
+	for i, lc := range all {
+		switch {
+		case lc.U:
+			nU++
+		case lc.Ok:
+			nOk++
+			c.Distinct([]any{"lit", lc.Ctx, lc.T})
+		default:
+			nBad++
+			c.Distinct([]any{"lit", lc.Ctx, lc.T})
+		}
+		if msgs[i] != "" {
+			c.Reject(litKey(lc), msgs[i], lc)
+		}
+	}
+	c.AddEvals(len(all))
+	c.AddTraces(len(all))
+	c.Set("literal_cases", map[string]any{"denoting": nOk, "not_a_literal": nBad, "unspecified_skipped": nU})
+	if len(all) > 0 {
+		c.Sample(all[len(all)/3])
+	}
+	return nil
+}
+
+func replayLiteral(c *lib.Ctx, lc litCase) error {
+	c.AddEvals(1)
+	if msg := replayLit(elv.New(), lc); msg != "" {
+		c.Reject(litKey(lc), msg, lc)
+	}
+	return nil
+}
